@@ -27,6 +27,13 @@ ENTRIES = [
 # find_roots (used only as a predicate), NodeSample.chebyshev / gauss_legendre, IntegratorArray.chebyshev / gauss_legendre
 
 
+# optional parameters bound to their default in the exact context ("the default integration")
+BINDINGS = {
+    "calculus.Integrate.scalar": {"method": None, "nnodes": None},
+    "calculus.Integrate.function": {"method": None, "nnodes": None},
+}
+
+
 def entries(prog):
     missing = [q for q in ENTRIES if q not in prog.funcs]
     if missing:
